@@ -772,3 +772,40 @@ func S13(rc *RC) {
 		rc.S.Ok("S13", "tensor.(*AP).S#contiguity", pos, "outermost axis by data order; NonContiguous on inner-axis slices and steps")
 	}
 }
+
+// S11: the order flag and the strides move together. A function that can flip the
+// column-major bit of an access pattern's data order (toggleColMajor, or-ing/assigning
+// ColMajor) must, in the same function, recompute or replace that pattern's strides.
+func S11(rc *RC) {
+	rc.S.Declare("S11", "order flag and strides move together: whoever flips the column-major bit of AP.o recomputes or replaces AP.strides in the same function", 1)
+	n := 0
+	for _, fi := range rc.P.SortedFuncs() {
+		if fi.Pkg != rc.P.Root || fi.Decl.Body == nil || strings.HasPrefix(fi.File, "sparse") {
+			continue
+		}
+		c := ir.NewCanon(rc.P.Fset, fi.Pkg.TypesInfo, ir.Options{ParamNames: true, KeepNames: true, NoSubst: true})
+		tree := c.Func(fi.Decl)
+		flips := ""
+		for _, nd := range flatten(tree) {
+			if (nd.Kind == "store" || nd.Kind == "let") && (strings.HasSuffix(nd.Target, ".o") || nd.Target == "$r.o") {
+				if strings.Contains(nd.Value, "toggleColMajor()") || strings.Contains(nd.Value, "ColMajor") {
+					flips = nd.Head
+				}
+			}
+		}
+		if flips == "" {
+			continue
+		}
+		n++
+		txt := ir.Render(tree)
+		pos := rc.P.Pos(fi.Decl.Pos())
+		if strings.Contains(txt, ".strides = ") || strings.Contains(txt, "calcStrides()") || strings.Contains(txt, "CalcStrides") || strings.Contains(txt, ".SetShape(") {
+			rc.S.Ok("S11", fi.Key, pos, "flips the order bit and recomputes strides")
+		} else {
+			rc.S.Viol("S11", fi.Key, pos, fmt.Sprintf("%s flips the column-major bit (%s) but leaves the strides of the old order in place: the tensor is then addressed with the wrong strides", fi.Key, flips)).Sig = "flag flipped, strides kept"
+		}
+	}
+	if n == 0 {
+		rc.S.Undec("S11", "tensor#order-flips", "-", "no function flips the data order any more (anchor lost)")
+	}
+}
